@@ -121,13 +121,14 @@ def completions(cols, n, m):
     """The end-to-end alignments obtained by adding the unaligned prefix and suffix of
     BOTH sequences to a (valid) partial trace as gap columns.  Normally exactly one;
     when both sequences have an unaligned part on the same side both orders are
-    returned, and when a sequence does not occur in the trace at all it may sit
-    entirely in front or entirely behind."""
+    returned, and when a sequence does not occur in the trace at all (so that "its ends"
+    are not defined by the trace) every split of it into a part in front and a part
+    behind is returned."""
     out = []
     idx1 = [c[0] for c in cols if c[0] != -1]
     idx2 = [c[1] for c in cols if c[1] != -1]
-    splits1 = [(idx1[0], idx1[-1] + 1)] if idx1 else [(n, n), (0, 0)]
-    splits2 = [(idx2[0], idx2[-1] + 1)] if idx2 else [(m, m), (0, 0)]
+    splits1 = [(idx1[0], idx1[-1] + 1)] if idx1 else [(k, k) for k in range(n + 1)]
+    splits2 = [(idx2[0], idx2[-1] + 1)] if idx2 else [(k, k) for k in range(m + 1)]
     for a0, a1 in splits1:
         for b0, b1 in splits2:
             pre1 = [(i, -1) for i in range(0, a0)]
@@ -223,9 +224,9 @@ class Space:
             self._gc[key] = g
         return g
 
-    def scores(self, s1, s2, mat, gap, terminal_penalty):
+    def scores(self, s1, s2, mat, gap, terminal_penalty, forbid_abut=True):
         """int64 score of every candidate; candidates that the affine model forbids
-        (abutting gaps) get NEG."""
+        (abutting gaps) get NEG unless forbid_abut is False."""
         n, m = self.n, self.m
         S = np.zeros(max(1, n * m), dtype=np.int64)
         for i in range(n):
@@ -233,7 +234,7 @@ class Space:
             for j in range(m):
                 S[i * m + j] = row[s2[j]]
         sc = self.A @ S + self.gapcost(gap, terminal_penalty)
-        if is_affine(gap):
+        if is_affine(gap) and forbid_abut:
             sc = np.where(self.abut, NEG, sc)
         return sc
 
@@ -246,20 +247,21 @@ def space(n, m, kind):
 MODES = ("global", "semi", "local")
 
 
-def brute(s1, s2, mat, gap, mode):
+def brute(s1, s2, mat, gap, mode, forbid_abut=True):
     """(optimum, scores, Space) over ALL alignments of the given mode.
     global: every gap charged; semi: terminal gaps free; local: every alignment of every
-    pair of substrings, or the empty alignment (score 0)."""
+    pair of substrings, or the empty alignment (score 0).  forbid_abut=False lifts the
+    affine rule that gaps in the two sequences may not abut (used for diagnosis only)."""
     n, m = len(s1), len(s2)
     if mode == "local":
         sp = space(n, m, "local")
-        sc = sp.scores(s1, s2, mat, gap, True)
+        sc = sp.scores(s1, s2, mat, gap, True, forbid_abut)
     elif mode == "global":
         sp = space(n, m, "global")
-        sc = sp.scores(s1, s2, mat, gap, True)
+        sc = sp.scores(s1, s2, mat, gap, True, forbid_abut)
     elif mode == "semi":
         sp = space(n, m, "global")
-        sc = sp.scores(s1, s2, mat, gap, False)
+        sc = sp.scores(s1, s2, mat, gap, False, forbid_abut)
     else:
         raise ValueError(mode)
     return int(sc.max()), sc, sp
